@@ -67,6 +67,8 @@ pub fn sem_of(code: u64) -> AllocationSemantics {
 /// Cycle mode (C09) allocates hundreds of thousands of objects whose placement nobody judges:
 /// their AllocCall/Alloc events are not logged (failures and everything else still are).
 pub static QUIET_ALLOC: std::sync::atomic::AtomicBool = std::sync::atomic::AtomicBool::new(false);
+/// `--tryfirst`: see `Driver::new_object`.
+pub static TRY_FIRST: std::sync::atomic::AtomicBool = std::sync::atomic::AtomicBool::new(false);
 
 pub struct Driver<const V: u32> {
     pub next_id: u64,
@@ -121,7 +123,20 @@ impl<const V: u32> Driver<V> {
                 .int("off", offset as i64));
         }
         let mu = mutator::<V>(m);
-        let a = memory_manager::alloc::<ShadowVM<V>>(mu, size, align, offset, sem);
+        // --tryfirst: like a VM with an inline allocation path that may not block, every request
+        // is first made with at_safepoint = false and repeated as an ordinary one when refused
+        let mut a = mmtk::util::Address::ZERO;
+        if TRY_FIRST.load(Ordering::Relaxed) {
+            let opts = mmtk::util::alloc::AllocationOptions {
+                allow_overcommit: false,
+                at_safepoint: false,
+                allow_oom_call: false,
+            };
+            a = memory_manager::alloc_with_options::<ShadowVM<V>>(mu, size, align, offset, sem, opts);
+        }
+        if a.is_zero() {
+            a = memory_manager::alloc::<ShadowVM<V>>(mu, size, align, offset, sem);
+        }
         if a.is_zero() {
             ev(Obj::new("AllocFail").int("id", id as i64));
             return 0;
